@@ -46,7 +46,7 @@ def declare(reg):
                 'tatsu/contexts/core.py:ParserCore'],
         'fields': {'states': 'States', 'tracer': 'opaque:Tracer', '_active_config': 'ConfigR',
                    'keywords': 'strset', 'semantics': 'opaque:Semantics', '_memos': 'MemoD', '_results': 'MemoD'},
-        'wf': ['len(self.states.state_stack) >= 1'],
+        'wf': ['len(self.states.state_stack) >= 1', 'spec_frame_wf(self.states.state_stack[-1])'],
         'isa': ['Ctx', 'ParseContext', 'ParserEngine', 'ParserCore'],
     }
     # grammar-model nodes are opaque objects; attributes are uninterpreted functions of the node
@@ -85,7 +85,6 @@ def declare(reg):
     reg.classes['ASTD'] = {'mro': ['tatsu/contexts/ast.py:AST'], 'isa': ['AST', 'dict']}
     reg.classes['Frame'] = {
         'mro': ['tatsu/contexts/state.py:ParseState'],
-        'wf': ['self.cursor.len == len(self.cursor.textstr)', '0 <= self.cursor.pos', 'self.cursor.pos <= self.cursor.len'],
         'isa': ['ParseState'],
     }
     reg.classes['RuleInfoR'] = {'mro': ['tatsu/contexts/infos.py:RuleInfo'], 'isa': ['RuleInfo']}
